@@ -50,6 +50,12 @@ impl Koto {
         }
     }
 
+    /// Verification hook: see `KotoVm::verif_stack_sizes`
+    #[cfg(koto_verif)]
+    pub fn verif_stack_sizes(&self) -> (usize, usize, usize, usize, usize) {
+        self.runtime.verif_stack_sizes()
+    }
+
     /// Returns a reference to the runtime's prelude
     pub fn prelude(&self) -> &KMap {
         self.runtime.prelude()
